@@ -46,6 +46,9 @@ type Desc struct {
 	// Close that are judged ("after a successful open" holds for every successful open of an object,
 	// not only its first). How the earlier connection ended is ReopenAfter: "" = plain Close,
 	// "eof" = the peer closed the stream and the reader saw it, then Close.
+	// OnClosePrompt: the on-close hook asks for the prompt first (what the shipped platforms'
+	// acquire-priv step does) and ignores a failure.
+	OnClosePrompt bool `json:"on_close_prompt,omitempty"`
 	// Backlog: that many reads of unsolicited output are delivered and left unread before Close.
 	Backlog int `json:"backlog,omitempty"`
 	// LongOps: the connection's operation timeout is 40 s instead of 3 s (Close must not be bounded by it).
@@ -283,6 +286,17 @@ func runClose(d Desc) mon.Result {
 				g.Channel.SendInput("exit")
 				return err
 			}
+			return nil
+		}))
+	}
+	if d.OnClosePrompt && d.Driver != "netconf" {
+		extra = append(extra, options.WithOnClose(func(g *generic.Driver) error {
+			onCloseRan.Add(1)
+			_, _ = g.GetPrompt()
+			if err := g.Channel.Write([]byte("exit"), false); err != nil {
+				return nil
+			}
+			_ = g.Channel.WriteReturn()
 			return nil
 		}))
 	}
@@ -621,6 +635,9 @@ func runClose(d Desc) mon.Result {
 	if d.OnCloseReads {
 		obs["closes_with_on_close_hook_waiting_for_a_mute_device"]++
 	}
+	if d.OnClosePrompt {
+		obs["closes_with_on_close_hook_asking_for_the_prompt"]++
+	}
 	tags := []string{"driver=" + d.Driver, "state=" + d.State, "close=" + d.CloseB, fmt.Sprintf("readdelay=%d", d.ReadDelay), "order:" + sig}
 	if d.A != "" {
 		if cst.infeasible {
@@ -695,7 +712,7 @@ func gen(tier string, seed int64) []mon.Case {
 	n := 0
 	add := func(d Desc) {
 		d.Seed = seed*100003 + int64(n)
-		cs = append(cs, mon.MkCase(fmt.Sprintf("c07/%05d-%s-%s-%s-rd%d%s%s", n, d.Driver, d.State, d.CloseB, d.ReadDelay, map[bool]string{true: "-alive"}[d.AliveTracks], map[bool]string{true: fmt.Sprintf("-refused%d", d.OpenFails)}[d.OpenFails > 0]+map[bool]string{true: "-hookfails"}[d.OnCloseFails]+map[bool]string{true: "-logsinkfails"}[d.LogSinkFails]+map[bool]string{true: "-hookreads"}[d.OnCloseReads]+map[bool]string{true: fmt.Sprintf("-reopened%d%s", d.Reopened, d.ReopenAfter)}[d.Reopened > 0]+map[bool]string{true: "-longops"}[d.LongOps]+map[bool]string{true: fmt.Sprintf("-backlog%d", d.Backlog)}[d.Backlog > 0]), d))
+		cs = append(cs, mon.MkCase(fmt.Sprintf("c07/%05d-%s-%s-%s-rd%d%s%s", n, d.Driver, d.State, d.CloseB, d.ReadDelay, map[bool]string{true: "-alive"}[d.AliveTracks], map[bool]string{true: fmt.Sprintf("-refused%d", d.OpenFails)}[d.OpenFails > 0]+map[bool]string{true: "-hookfails"}[d.OnCloseFails]+map[bool]string{true: "-logsinkfails"}[d.LogSinkFails]+map[bool]string{true: "-hookreads"}[d.OnCloseReads]+map[bool]string{true: fmt.Sprintf("-reopened%d%s", d.Reopened, d.ReopenAfter)}[d.Reopened > 0]+map[bool]string{true: "-hookprompt"}[d.OnClosePrompt]+map[bool]string{true: "-longops"}[d.LongOps]+map[bool]string{true: fmt.Sprintf("-backlog%d", d.Backlog)}[d.Backlog > 0]), d))
 		n++
 	}
 	drivers := []string{"generic", "network", "netconf"}
@@ -716,6 +733,10 @@ func gen(tier string, seed int64) []mon.Case {
 							// a hook that fails must not keep Close from closing
 							add(Desc{Kind: "close", Driver: dr, State: st, CloseB: cb, ReadDelay: rd, OnClose: true, OnCloseFails: true})
 						}
+					}
+					if dr != "netconf" && rd == 250 && (st == "idle-blocked" || st == "second-close" || st == "concurrent-close" || st == "peer-closed-unnoticed" || st == "err-consumed") {
+						// an on-close hook that looks at the prompt before it says good-bye
+						add(Desc{Kind: "close", Driver: dr, State: st, CloseB: cb, ReadDelay: rd, OnClosePrompt: true})
 					}
 					if dr != "netconf" && rd == 250 && (st == "idle-blocked" || st == "second-close") {
 						// an on-close hook that waits for a device that has gone mute
